@@ -389,6 +389,23 @@ def geom_index_var(fn):
     return None, None, None
 
 
+def dispatch_view(unit, fn, cand_name):
+    """fn with the geom-type dispatch visible: if the dispatch lives in a same-TU helper whose result is the candidate
+    distance, that helper is analysed in place; `continue`-style guards are nested so that the elimination test encloses
+    what it guards."""
+    from .. import norm
+    if geom_index_var(fn)[0] is None:
+        helpers = set()
+        for x in cir.walk(fn):
+            if x.get("k") == "BinaryOperator" and x.get("op") == "=" and cir.text(cir.kids(x)[0]) == cand_name:
+                r = cir.strip(cir.kids(x)[1])
+                if cir.is_call(r) and cir.callee(r) in unit.funcs:
+                    helpers.add(cir.callee(r))
+        if helpers:
+            fn = norm.Inliner(unit, depth=2, pred=lambda h: h.get("n") in helpers).expand(fn)
+    return norm.nest(fn)
+
+
 def dispatch_map(unit, fn, cand_name, enumerators):
     idx, tvar, tdecl = geom_index_var(fn)
     if idx is None:
@@ -503,9 +520,12 @@ def check_dispatch(res, unit, all_sites, single):
     mm = unit.funcs["mj_multiRay"]
     sr = unit.funcs[single]
     maps = {}
+    views = {}
     for fn in (mr, sr):
         cand = cir.text(cir.strip(cir.kids(all_sites[fn.get("n")][1][0][2])[1]))
-        maps[fn.get("n")] = dispatch_map(unit, fn, cand, real)
+        views[fn.get("n")] = dispatch_view(unit, fn, cand)
+        maps[fn.get("n")] = dispatch_map(unit, views[fn.get("n")], cand, real)
+    mr, sr = views["mj_ray"], views[single]
     m1, idx1, t1 = maps["mj_ray"]
     m2, idx2, t2 = maps[single]
     generic = unit.funcs["mju_rayGeom"]
@@ -683,8 +703,9 @@ def check_dispatch(res, unit, all_sites, single):
 # ------------------------------------------------------------------------------------------------------------ mj_multiRay
 
 class MultiRule(paths.Rule):
-    def __init__(self, dname, gname, nname, idx, single, spos):
+    def __init__(self, dname, gname, nname, idx, single, spos, aliases=None):
         self.d, self.g, self.n, self.idx, self.single, self.spos = dname, gname, nname, idx, single, spos
+        self.aliases = aliases or {}      # local pointer -> "g" / "n": it is <that array> + offset(idx), or NULL with the array
 
     def initial(self, fn):
         return frozenset()
@@ -711,11 +732,17 @@ class MultiRule(paths.Rule):
                     st = st | {"d"} | self._through(cir.kids(node)[1], ctx, st)
                 elif base == self.g and idx == self.idx:
                     st = st | {"g"}
+                elif self.aliases.get(base) == "g" and idx == "0":
+                    st = st | {"g"}
+            elif lhs.get("k") == "UnaryOperator" and lhs.get("op") == "*" and self.aliases.get(cir.text(cir.kids(lhs)[0])) == "g":
+                st = st | {"g"}
         return st
 
     def call(self, st, node, name, ctx):
         a = cir.args(node)
         if a and self.n and re.match(r"\b%s\b" % re.escape(self.n), cir.text(a[0])) and self.idx in cir.text(a[0]):
+            return st | {"n"}
+        if a and self.aliases.get(cir.text(a[0])) == "n" and name != self.single:
             return st | {"n"}
         return st
 
@@ -724,6 +751,8 @@ class MultiRule(paths.Rule):
             return st | {"g"}
         if not taken and self.n and cir.text(cond) == self.n:
             return st | {"n"}
+        if not taken and cir.text(cond) in self.aliases:
+            return st | {self.aliases[cir.text(cond)]}
         return st
 
     def fallthrough(self, st, ctx):
@@ -778,7 +807,15 @@ def check_multiray(res, unit, single, main_fns, required):
     pf = _c14.pseudo_iteration(mm, loop, "mj_multiRay@ray-loop")
     spos = {"g": sformals.index(gformal) if gformal in sformals else None,
             "n": sformals.index(nformal) if nformal in sformals else None}
-    ex = paths.Explorer(MultiRule(dname, gname, nname, idx, single, spos), unit, pf)
+    aliases = {}
+    for x in cir.walk(mm):
+        if x.get("k") == "VarDecl" and x.get("init") and finite.is_pointer_type(x.get("t")):
+            init = [c for c in cir.kids(x) if c is not None][-1]
+            texts = [cir.text(r) for r in _c14.resolve(d, init, set())] + [cir.text(init)]
+            for key_, nm in (("g", gname), ("n", nname)):
+                if nm and any(re.search(r"\b%s\b" % re.escape(nm), t) and re.search(r"\b%s\b" % re.escape(idx), t) for t in texts):
+                    aliases[x.get("n")] = key_
+    ex = paths.Explorer(MultiRule(dname, gname, nname, idx, single, spos, aliases), unit, pf)
     ex.ctx.ends = []
     ex.ctx.defs = d
     ex.run()
